@@ -9,6 +9,7 @@ CONSTANTS
   MaxChans = 2
   OffSet = {0, 3}
   SizeSet = {1, 2}
+  Split = FALSE
   GenPrint = FALSE
 INVARIANT InBounds
 INVARIANT TruncOK
